@@ -18,7 +18,7 @@ static Proc run_tool(const std::string& exe, const std::vector<std::string>& arg
         int o = open(of.c_str(), O_WRONLY | O_CREAT | O_TRUNC, 0600), e = open(ef.c_str(), O_WRONLY | O_CREAT | O_TRUNC, 0600); dup2(o, 1); dup2(e, 2);
         struct rlimit rl = {(rlim_t)limit_s, (rlim_t)limit_s + 1}; setrlimit(RLIMIT_CPU, &rl);
         std::vector<char*> av; av.push_back((char*)exe.c_str()); for (auto& a : args) av.push_back((char*)a.c_str()); av.push_back(nullptr);
-        setenv("ASAN_OPTIONS", "detect_leaks=0:max_allocation_size_mb=512:abort_on_error=0:exitcode=99", 1); setenv("UBSAN_OPTIONS", "print_stacktrace=1:halt_on_error=1:exitcode=98", 1);
+        setenv("ASAN_OPTIONS", "detect_leaks=0:max_allocation_size_mb=64:abort_on_error=0:exitcode=99", 1); setenv("UBSAN_OPTIONS", "print_stacktrace=1:halt_on_error=1:exitcode=98", 1);
         execv(exe.c_str(), av.data()); _exit(127);
     }
     int st = 0; waitpid(p, &st, 0);
